@@ -87,6 +87,30 @@ func init() {
 			}
 		}
 	}
+	// rmix text k: ONE reader; Next k times, then All for the rest - the same sequence as All alone
+	ops["rmix"] = func(a []string) string {
+		r, err := control.NewParagraphReader(strings.NewReader(arg(a, 0)), nil)
+		if err != nil {
+			return "err"
+		}
+		k, _ := strconv.Atoi(arg(a, 1))
+		ps := []control.Paragraph{}
+		for i := 0; i < k; i++ {
+			p, err := r.Next()
+			if err == io.EOF {
+				break
+			}
+			if err != nil || p == nil {
+				return "err"
+			}
+			ps = append(ps, *p)
+		}
+		rest, err := r.All()
+		if err != nil {
+			return "err"
+		}
+		return "ok " + showParas(append(ps, rest...))
+	}
 	// decoding into a slice of structs that embed the raw paragraph
 	ops["rslice"] = func(a []string) string {
 		out := []rawPara{}
